@@ -449,6 +449,32 @@ func ZZ_C20_errwriters() {
 	}
 }
 
+// ZZ_C20_errwriters_reconfigured: debug exposure (and the legacy error format) is CHANGED between two errors
+// written by one provider: the second response is judged by the configuration in force when it is written -
+// a debug text is exposed exactly if exposure is on NOW.
+func ZZ_C20_errwriters_reconfigured() {
+	zz.SetOption("c20.structural", 1)
+	L := zzC20L()
+	w := zz.Choice("writer", zzWCount)
+	hint := zz.String("hint", L)
+	debug := zz.String("debug", L)
+	state := zz.String("state", L)
+	zz.Assume(debug != "")
+	err, name, code := zzC20PickError(3, hint, debug)
+	legacy1, expose1 := zz.Bool("legacy1"), zz.Bool("expose1")
+	env := zzC20NewEnv(w, legacy1, expose1, state)
+	env.writeError(w, zzC20NewRec(), err)
+	legacy2, expose2 := zz.Bool("legacy2"), zz.Bool("expose2")
+	env.cfg.UseLegacyErrorFormat, env.cfg.SendDebugMessagesToClients = legacy2, expose2
+	env.legacy, env.expose = legacy2, expose2
+	rec := zzC20NewRec()
+	env.writeError(w, rec, err)
+	zz.Observe("status", rec.status)
+	env.checkError(w, rec, err, name, code)
+	zz.Cover("reconfigured:exposure-switched-off", expose1 && !expose2)
+	zz.Cover("reconfigured:exposure-switched-on", !expose1 && expose2)
+}
+
 // ---- H2: non-interference of the debug field ----------------------------------------------------
 
 func zzC20SameValues(a, b url.Values) bool {
